@@ -333,6 +333,9 @@ class Worker(Node):
             raise _exception.TopologyError('Fork train collision')
         train.publish(self, port.Train())
         label.publish(self, port.Label())
+        # trained-ness is derived from the live train/label subscriptions which are owned by their publishers only - keep
+        # the publishers referenced so they cannot be garbage-collected (unsubscribing us) while this worker is alive
+        self._trained_by: tuple['flow.Publishable', 'flow.Publishable'] = (train, label)
 
     def subscribed(self, publisher: 'flow.Node') -> bool:
         """Checking we are on given node's subscription list.
